@@ -91,15 +91,15 @@ func main() {
 		names = append(names, s.Name)
 	}
 	r.Set("bounds", map[string]interface{}{
-		"compact_grid":        fmt.Sprintf("exponents 0..255 x %d mantissa/sign patterns, range verdict for %d pow limits", len(gridMantissas), len(rangeLimits)),
-		"compact_sweep":       map[bool]string{true: "all 2^32 compact values (see compact_sweep)", false: "not in quick"}[thorough],
-		"targets":             "0, 2^k-1, 2^k, 2^k+1 (k=0..256, capped at 2^256-1), 16 byte patterns x 32 byte offsets x 4 low-fill variants, both signs",
-		"retarget_param_sets": names,
-		"retarget_histories":  "candidate heights k*I (k=1,2[,3]) with last/first bits from the in-range target list x actual timespans {T/4-1,T/4,T/4+1,T-1,T,T+1,4T-1,4T,4T+1,0,-1,-T,2T,T/2,T/3+1} x candidate times; candidate heights k*I+j+1 (k=0,1,2) with all {limit,A,B} bit patterns of the window prefix (small windows) or run-length shapes (2016 windows) x candidate time deltas {2s-1,2s,2s+1,1,s,0,-7,2s+1000}",
-		"header_dfs":          "ProcessBlockHeader: per node times {prev+s, mtp+1, prev+2s+1 (extended), mtp, mtp-1, prev+2s, prev-600, prev-601, prev-599, now+7200, now+7201} x bits {required, limit, required^1, required|sign, 0, 0xff123456, prev bits, required+exp}; depth 2I+1 (I<4 quick, I<8 thorough) else I+2",
-		"mtp":                 fmt.Sprintf("all sequences of 1..%d timestamps from 3 values", r.Pick(12, 13)),
-		"subsidy":             "intervals {150,210000,1,2,3,1000,209999,210001,2^20,2^25,2^31-1,0}: heights k*I-1,k*I,k*I+1 (k=0..65), 2^31-1; every height 0..66*I+1 for I<=210001; thorough: all 2^31 heights for 210000 and 150",
-		"pow_hash":            fmt.Sprintf("10 bits values x nonces 0..%d x 3 limits", r.Pick(1<<15, 1<<19)),
+		"compact_grid":                        fmt.Sprintf("exponents 0..255 x %d mantissa/sign patterns, range verdict for %d pow limits", len(gridMantissas), len(rangeLimits)),
+		"compact_sweep":                       map[bool]string{true: "all 2^32 compact values (see compact_sweep)", false: "not in quick"}[thorough],
+		"targets":                             "0, 2^k-1, 2^k, 2^k+1 (k=0..256, capped at 2^256-1), 16 byte patterns x 32 byte offsets x 4 low-fill variants, both signs",
+		"retarget_param_sets":                 names,
+		"retarget_histories":                  "candidate heights k*I (k=1,2[,3]) with last/first bits from the in-range target list x actual timespans {T/4-1,T/4,T/4+1,T-1,T,T+1,4T-1,4T,4T+1,0,-1,-T,2T,T/2,T/3+1} x candidate times; candidate heights k*I+j+1 (k=0,1,2) with all {limit,A,B} bit patterns of the window prefix (small windows) or run-length shapes (2016 windows) x candidate time deltas {2s-1,2s,2s+1,1,s,0,-7,2s+1000}",
+		"header_dfs":                          "ProcessBlockHeader: per node times {prev+s, mtp+1, prev+2s+1 (extended; prev-600 too at BIP94 boundaries), mtp, mtp-1, prev+2s, prev-600, prev-601, prev-599, now+7200, now+7201} x bits {required, limit, required^1, required|sign, 0, 0xff123456, prev bits, required+exp}; candidate heights 1..maxH, maxH = 5 (quick) / 7 (thorough) for window 2, 7 for window 3, 6/7 for window 4, 8 for window 8",
+		"mtp":                                 fmt.Sprintf("all sequences of 1..%d timestamps from 3 values", r.Pick(12, 13)),
+		"subsidy":                             "intervals {150,210000,1,2,3,1000,209999,210001,2^20,2^25,2^31-1,0}: heights k*I-1,k*I,k*I+1 (k=0..65), 2^31-1; every height 0..66*I+1 for I<=210001; thorough: all 2^31 heights for 210000 and 150",
+		"pow_hash":                            fmt.Sprintf("10 bits values x nonces 0..%d x 3 limits", r.Pick(1<<15, 1<<19)),
 		"max_pow_limit_for_retarget_equality": "2^232 (synthetic); simnet/regtest limits only where Core's arithmetic does not wrap",
 	})
 	_ = big.NewInt
